@@ -287,6 +287,32 @@ func c02EditVariants(cr *c02Cred, lifetimeS int64, nowS int64) []c02Variant {
 			out = append(out, c02Mut("timestamp", name, "timestamp := "+e, cr, func() string { return c02Fields{f.Value, e, f.Sig, true}.String() }))
 		}
 	}
+	// the last character of a base64 block carries unused bits: every alphabet character in the last position before
+	// the padding of the signature (some decode to the very same MAC — "exactly the session that was issued") and of the value
+	lastOf := func(x string) int { return len(strings.TrimRight(x, "=")) - 1 }
+	for ci := 0; ci < len(c02Alphabet); ci++ {
+		ch := c02Alphabet[ci]
+		if k := lastOf(f.Sig); k >= 0 && f.Sig[k] != ch {
+			out = append(out, c02Mut("base64-last-char", "signature", fmt.Sprintf("last signature character %q -> %q", f.Sig[k], ch), cr, func() string {
+				return c02Fields{f.Value, f.TS, f.Sig[:k] + string(ch) + f.Sig[k+1:], true}.String()
+			}))
+		}
+		if k := lastOf(f.Value); k >= 0 && f.Value[k] != ch {
+			out = append(out, c02Mut("base64-last-char", "value", fmt.Sprintf("last value character %q -> %q", f.Value[k], ch), cr, func() string {
+				return c02Fields{f.Value[:k] + string(ch) + f.Value[k+1:], f.TS, f.Sig, true}.String()
+			}))
+		}
+	}
+	for name, s := range map[string]string{"signature-unpadded": strings.TrimRight(f.Sig, "="), "value-unpadded": strings.TrimRight(f.Value, "="), "signature-std-alphabet": strings.NewReplacer("-", "+", "_", "/").Replace(f.Sig)} {
+		name, s := name, s
+		out = append(out, c02Mut("base64-respelled", name, "", cr, func() string {
+			switch name {
+			case "value-unpadded":
+				return c02Fields{s, f.TS, f.Sig, true}.String()
+			}
+			return c02Fields{f.Value, f.TS, s, true}.String()
+		}))
+	}
 	// number of fields
 	for name, s := range map[string]string{
 		"no-signature-field": f.Value + "|" + f.TS, "value-only": f.Value, "extra-field": cr.Full + "|" + f.Sig, "extra-empty-field": cr.Full + "|",
